@@ -257,6 +257,63 @@ SPECS["C12"] = dict(
     examples="(* witnesses: TablesP.witness_old_accepts / witness_new_refuses *)\n")
 
 
+SPECS["C13"] = dict(
+    title="read-only operations leave programs unchanged; instances are independent",
+    imports="From Coq Require Import List Arith Bool Lia String.\nImport ListNotations.\nFrom BB Require Import Heap HeapP Facts FactsP.",
+    items=[
+        dict(name="footprints_confined", comment="every store write of serialize, __call__, to_DiGraph, match_template and the attribute getters targets an object constructed or deep-copied inside the function (footprints regenerated from the Python sources on every run)"),
+        dict(name="frame_call", comment="a call that writes only to objects it allocated leaves every pre-existing object untouched"),
+        dict(name="readonly_frame", comment="... for any sequence of such calls interleaved with arbitrary client writes to objects allocated later (mutations of returned objects)"),
+        dict(name="program_unchanged", comment="hence the program (everything reachable from it) is observably unchanged"),
+        dict(name="instances_separated", comment="instances obtained by deep copy are separated from the template and from each other"),
+        dict(name="all_instances_separated"),
+        dict(name="modify_inst1_alters_nothing_else", comment="modifying one never alters another"),
+        dict(name="modify_inst2_alters_nothing_else"),
+        dict(name="instances_template_unchanged"),
+    ],
+    examples="(* non-vacuity: HeapP.heap3 / call1 / session1 / deepcopy_example are concrete heaps, calls and a satisfiable DeepCopy contract *)\n")
+
+
+SPECS["C17"] = dict(
+    title="template matching inverts instantiation, independent of commuting order",
+    imports="From Coq Require Import List Arith Bool Lia Relations Permutation QArith.\nClose Scope Q_scope.\nImport ListNotations.\nFrom BB Require Import Graph GraphP MatchP.",
+    items=[
+        dict(name="match_template_reordered", comment="for a template with affine single-parameter arguments (non-zero coefficients) and ANY reordering of its instantiation that preserves the order on every mode: whatever label-preserving graph homomorphism is used, the collected bindings are the instantiation values, consistent, and re-instantiating reproduces the program's arguments"),
+        dict(name="iso_unique", comment="the isomorphism is unique: any label- and edge-preserving map between the dependency graphs of a program and its reordering is the reordering itself (so networkx may return any isomorphism)"),
+        dict(name="reorder_consec", comment="a per-mode-order-preserving reordering is a graph isomorphism"),
+        dict(name="match_inverts_inst", comment="solving the affine arguments recovers the values"),
+        dict(name="solve_inverts"),
+        dict(name="label_change_rejected", comment="a different gate or mode list, or a different order on a shared mode, admits no isomorphism"),
+        dict(name="order_change_rejected"),
+    ],
+    examples="(* non-vacuity: MatchP has worked examples (ex_A1, ex_order_rejected, ex_match_values). Version/target mismatches are plain equality tests before any graph is built (not modelled); the floating-point tolerance of the consistency check is not modelled. *)\n")
+
+SPECS["C01"] = dict(
+    title="serialise-then-parse round trip preserves every parsed program",
+    imports=STD + "From BB Require Import Lexer Syntax Parser Values Eval EvalP Serialize SerializeP.",
+    items=[
+        dict(name="ser_roundtrip", comment="AST level: the script the serialiser writes denotes a program equivalent to the one serialised (same name, version, target, type, operations with equal gate names and modes, argument values equal exactly or - reals/complex/symbolic - equal in every arithmetic structure satisfying four elementary laws)"),
+        dict(name="ser_denote"),
+        dict(name="ser_script_total", comment="the serialiser is defined on every well-formed program"),
+        dict(name="ser_generations_total", comment="and the same holds for every later generation"),
+        dict(name="ser_generations"),
+        dict(name="term_expr_eval", comment="a printed term evaluates back to (the normal form of) the term with its kind"),
+        dict(name="parse_z_digits"),
+        dict(name="parse_dec_text"),
+    ],
+    examples="(* non-vacuity: SerializeP.ex_wf, ex_serialised, ex_loaded. The token level (printing the script and parsing it back) is UnparseP. *)\n")
+SPECS["C09"] = dict(
+    title="programs assembled through the API serialise to valid, equivalent scripts",
+    imports=SPECS["C01"]["imports"],
+    items=[
+        dict(name="ser_roundtrip", comment="for every well-formed program value (however it was assembled): the serialised script is accepted and denotes an equivalent program"),
+        dict(name="ser_script_total"),
+        dict(name="reload_equiv", comment="arrays: the hoisted declarations A<k> carry the declared shape and every element"),
+        dict(name="ser_denote"),
+    ],
+    examples=SPECS["C01"]["examples"])
+
+
 def main():
     which = sys.argv[1:] or sorted(SPECS)
     for p in which:
